@@ -22,6 +22,7 @@ def run(ctx):
     CH.size_hint_table(ctx, "C12.R2")
     CH.shared_initial_state(ctx, "C12.R4.init")
     CH.end_stream_table(ctx, "C12.R3.reader")
+    CH.eos_implies_end(ctx, "C12.R3.cross")
     BR.exactlen_table(ctx, "C12.R4.exactlen", eos_clause=True)
     MP.stream_accounting(ctx, "C12.R4.multipart")
     CH.reader_consume(ctx, "C12.R4.reader")
